@@ -67,4 +67,59 @@ where nodesL : List AreaT → List AreaT
   | [] => []
   | k :: ks => nodes k ++ nodesL ks
 
+/-! ### sections of an area's gene list -/
+
+/-- where a gene of an area is filed: genes crossing the origin under `cross`; in an area that itself crosses
+    the origin, genes inside its second part (the one starting at the origin) under `post`, the others under
+    `pre`; in an ordinary area everything (that does not cross the origin) under `post` -/
+def specSection (area g : Loc) : Section :=
+  if crosses g then .cross
+  else match area.parts with
+    | _ :: p1 :: _ => if specContained g (.simple p1) then .post else .pre
+    | _ => .post
+
+/-! ### what is alive after a history with clearing calls -/
+
+/-- the genes and the collections currently in the record -/
+structure Live where
+  genes : List Gene := []
+  regions : List AreaT := []
+  protos : List AreaT := []
+  cands : List AreaT := []
+  subs : List AreaT := []
+
+def Live.areas (l : Live) : List AreaT := l.regions ++ l.protos ++ l.cands ++ l.subs
+
+/-- regions are rebuilt (from what is left) only if there were any -/
+def Live.reset (l : Live) (new : List AreaT) : Live :=
+  if l.regions.isEmpty then l else { l with regions := new }
+
+def Live.step (l : Live) : Op → Live
+  | .cds g => { l with genes := l.genes ++ [g] }
+  | .area a =>
+    match a.kind with
+    | .proto => { l with protos := l.protos ++ [a] }
+    | .cand => { l with cands := l.cands ++ [a] }
+    | .sub => { l with subs := l.subs ++ [a] }
+    | .region => { l with regions := l.regions ++ [a] }
+  | .clearRegions => { l with regions := [] }
+  | .clearSubs new => Live.reset { l with subs := [] } new
+  | .clearCands new => Live.reset { l with cands := [] } new
+  | .clearProtos new => Live.reset { l with protos := [], cands := [] } new
+  | _ => l
+
+def liveAfter (ops : List Op) : Live := ops.foldl Live.step {}
+
+/-- the collections one call hands to the record (an `add_<area>` argument, the regions a clearing call
+    re-creates) -/
+def opAreas : Op → List AreaT
+  | .area a => [a]
+  | .clearSubs new => new
+  | .clearCands new => new
+  | .clearProtos new => new
+  | _ => []
+
+/-- every collection a history hands to the record -/
+def opsAreas (ops : List Op) : List AreaT := ops.flatMap opAreas
+
 end ASV.Lookup
